@@ -86,9 +86,16 @@ CHECKS = {
                      'all pairs of serials. Boundary inputs and solver models are replayed on the real functions.',
                 note='Trusted: kt/kt.py, kt/models_date.py (datetime/timedelta/relativedelta/rrule(DAILY) models, days-from-civil formula), z3. Outside: DATEDIF units M/Y/MD/YM/YD, YEARFRAC bases 0/1/4 '
                      '(third-party iteration/tables), NOW/TODAY, serial 60; DATE/EDATE/EOMONTH over ALL years at once (z3 answers unknown) - representative years instead.'),
+    'C16': dict(engine='KT+XH', technique='kernel translation of the rounding kernels into z3 reals/ints (one query per function) + CrossHair symbolic execution of every math function with contract stubs for the C library',
+                text='Bounded symbolic model checking: ROUND/ROUNDUP/ROUNDDOWN/TRUNC for EVERY real number in -10^15..10^15 and every digit count -10..10, INT, EVEN, FLOOR (integers), MOD (integer dividends, 11 divisors) '
+                     'equal Excel\'s rounding direction on exact decimal arithmetic; every function of the statement returns a finite number or an Excel error for ALL real arguments when the C library is replaced by its '
+                     'documented domain contract (raises / NaN / infinity outside the domain, arbitrary finite value inside), and calls the library function the statement prescribes with the prescribed arguments '
+                     '(ATAN2(x,y)=atan2(y,x), LOG(n,b)).',
+                note='Trusted: kt/kt.py, kt/models_math.py (Decimal/round/localcontext/math.trunc|ceil|floor models), library contract table in props/c16.py (P3), CrossHair, z3; floats as exact reals. '
+                     'NOT applicable: agreement with correctly rounded IEEE-754 values to a few ulp (libm/numpy C code) and CEILING/FLOOR/TRUNC on fractional binary floats (binary rounding of products is not modelled); CEILING is not covered.'),
 }
 NA = {
     'C12': 'persist/restore is ten lines around jsonpickle -> json (C encoder) -> gzip/file I/O; no repo-side kernel a solver can quantify over (symbolic values are realised or pickled as proxy objects at the codec boundary)',
 }
-for _p in ['C08', 'C11', 'C16', 'C20']:
+for _p in ['C08', 'C11', 'C20']:
     NA.setdefault(_p, 'check not built yet in this revision (planned: see DESIGN.md §4)')
